@@ -62,6 +62,12 @@ func (e *kvElection) heartbeatLoop(ctx context.Context, termToken string) {
 				}
 			}
 
+			// The health check may have blocked: leadership can have been lost, and
+			// follower bookkeeping can have replaced the revision, in the meantime.
+			if !e.IsLeader() || e.Token() != termToken {
+				return
+			}
+
 			currentRev := e.revision.Load()
 
 			token := e.Token()
